@@ -449,7 +449,7 @@ func c2Reference(c *Ctx) {
 			case mn == "AddObject" || mn == "AppendObject":
 				c.Check(strings.Contains(d, "NewMapObjectEncoder().Fields"), "R2.3", name, "nested-object", fn.Pos(), "a nested object is recorded as the map of a fresh MapObjectEncoder (%s)", d)
 			case strings.HasSuffix(mn, "ByteString"):
-				c.Check(d == "conv[string]("+val.Name()+")", "R2.3", name, "bytes-as-string", fn.Pos(), "UTF-8 bytes are recorded as a string copy (%s)", d)
+				c.Check(d == "conv[string]("+PN(val)+")", "R2.3", name, "bytes-as-string", fn.Pos(), "UTF-8 bytes are recorded as a string copy (%s)", d)
 			default:
 				c.Check(Strip(stored) == ssa.Value(val), "R2.3", name, "stores-unchanged", fn.Pos(), "records the parameter itself, unconverted (%s)", d)
 			}
